@@ -26,6 +26,7 @@ type subPlan struct {
 	StartAfter int  `json:"startAfter"` // subscribe once this many sends have been invoked
 	Take       int  `json:"take"`       // unsubscribe after receiving this many traces (0 = stay until the end)
 	Lazy       int  `json:"lazy"`       // yields between two receives
+	Rejoin     bool `json:"rejoin,omitempty"` // after leaving, subscribe again with the same channel and stay until the end
 }
 
 // TracerCase exercises pkg/tracing alone.
@@ -66,27 +67,45 @@ func (t *TracerCase) Main() {
 				}
 			}
 			ch := make(chan tracing.ITrace, sp.Buf)
-			L.AddG(i, "sub-call", "", "", 0)
+			id := i // the log identity of this subscription (a second session of the same channel gets its own)
+			take := sp.Take
+			L.AddG(id, "sub-call", "", "", 0)
 			tr.SubscribeChannel(ch)
-			L.AddG(i, "sub-ret", "", "", 0)
+			L.AddG(id, "sub-ret", "", "", 0)
 			got := 0
 			for {
 				x, ok := <-ch
 				if !ok {
-					L.AddG(i, "closed", "", "", 0)
+					L.AddG(id, "closed", "", "", 0)
 					return
 				}
 				st, _ := tracing.Unwrap(x).(stamp)
-				L.AddG(i, "recv", fmt.Sprint(st.S), "", st.N)
+				L.AddG(id, "recv", fmt.Sprint(st.S), "", st.N)
 				got++
 				for k := 0; k < sp.Lazy; k++ {
 					simrt.Yield("lazy-subscriber")
 				}
-				if sp.Take > 0 && got >= sp.Take {
-					L.AddG(i, "unsub-call", "", "", 0)
+				if take > 0 && got >= take {
+					L.AddG(id, "unsub-call", "", "", 0)
 					tr.Unsubscribe(ch)
-					L.AddG(i, "unsub-ret", "", "", 0)
-					return
+					L.AddG(id, "unsub-ret", "", "", 0)
+					if !sp.Rejoin || id != i {
+						return
+					}
+					// what the tracer had put into the channel before the subscription ended belongs to the first
+					// session: take it out, then join again with the very same channel and stay
+					for more := true; more; {
+						select {
+						case <-ch:
+						default:
+							more = false
+						}
+					}
+					id, take, got = i+50, 0, 0
+					t.env.fault("rejoin-with-same-channel")
+					L.AddG(id, "sub-call", "", "", 0)
+					tr.SubscribeChannel(ch)
+					L.AddG(id, "sub-ret", "", "", 0)
 				}
 			}
 		}()
@@ -144,6 +163,7 @@ func genC09Tracer(d *Draw) Case {
 		}
 		if d.N(2) == 1 {
 			sp.Take = 1 + d.N(total)
+			sp.Rejoin = d.N(3) == 2
 		}
 		t.Subs = append(t.Subs, sp)
 	}
@@ -396,7 +416,7 @@ func genC09(d *Draw) Case {
 	if d.N(2) == 0 {
 		return genC09Tracer(d)
 	}
-	opts := ProgOpts{Kinds: []string{"seq", "xor", "and", "or", "loop", "sub"}, MaxDepth: 1 + d.N(2), MaxTasks: 3 + d.N(5), OrEarlyEnd: true}
+	opts := ProgOpts{Kinds: []string{"seq", "xor", "and", "or", "loop", "sub"}, MaxDepth: 1 + d.N(2), MaxTasks: 3 + d.N(5), OrEarlyEnd: true, StartFork: true}
 	var kinds []string
 	for _, k := range opts.Kinds {
 		if d.N(3) != 0 {
